@@ -121,3 +121,28 @@ pub fn csc_symv(A: &crate::algebra::CscMatrix<f64>, y: &mut [f64], x: &[f64], a:
     use crate::algebra::SymMatrixVectorMultiply;
     A.sym().symv(y, x, a, b);
 }
+
+// ---------------------------------------------------------------------------
+// read-only views of crate-private solver components
+// ---------------------------------------------------------------------------
+
+/// What the presolver decided at construction time (None: no reduction took place).
+pub struct PresolveView {
+    pub keep: Vec<bool>,
+    pub mfull: usize,
+    pub mreduced: usize,
+    pub infbound: f64,
+}
+
+pub fn presolve_view(data: &crate::solver::DefaultProblemData<f64>) -> Option<PresolveView> {
+    data.presolver.as_ref().map(|p| PresolveView {
+        keep: p
+            .reduce_map
+            .as_ref()
+            .map(|m| m.keep_logical.clone())
+            .unwrap_or_else(|| vec![true; p.mfull]),
+        mfull: p.mfull,
+        mreduced: p.mreduced,
+        infbound: p.infbound,
+    })
+}
